@@ -12,10 +12,11 @@
      uclose{}                                the upstream is about to close the connection(s) of the proxy
      crecv{conn,id,ok,status,htok,btok}      a client read a response frame: id, success?, token in header / in body
      cclose{conn}                            the client is about to close this connection: its outstanding requests are abandoned
+                                             (no reply is owed; a frame that still arrives is judged like any other)
      quiesce{}                               end of the scenario: everything released, all waits over *)
 EXTENDS Integers, Sequences, FiniteSets, TLC, XJudge, VTrace
 
-VARIABLES open,      \* <<conn, dsid>> -> [tok, short, unstable, closedSince, cc] : requests the client is waiting for
+VARIABLES open,      \* <<conn, dsid>> -> [tok, short, unstable, closedSince, cc, gone] : requests the client is waiting for
           done,      \* <<conn, dsid>> already answered in this run
           produced,  \* tokens the upstream has answered
           unstable,  \* an upstream close happened and no request sent after it has succeeded yet
@@ -33,7 +34,7 @@ TRun == IsEvent("run") /\ open' = Empty /\ done' = {} /\ produced' = {} /\ unsta
 
 TCsend == /\ IsEvent("csend")
           /\ LET k == <<Ev.conn, Ev.dsid>>
-                 q == [tok |-> Ev.tok, short |-> Ev.short, unstable |-> unstable \/ Ev.probe, closedSince |-> FALSE, cc |-> closes]
+                 q == [tok |-> Ev.tok, short |-> Ev.short, unstable |-> unstable \/ Ev.probe, closedSince |-> FALSE, cc |-> closes, gone |-> FALSE]
              IN /\ k \notin DOMAIN open      \* the harness never reuses an id that is still outstanding on the connection
                 /\ open' = [x \in DOMAIN open \cup {k} |-> IF x = k THEN q ELSE open[x]]
                 /\ done' = done \ {k}
@@ -49,7 +50,7 @@ TUclose == /\ IsEvent("uclose")
 TCrecv == /\ IsEvent("crecv")
           /\ LET k == <<Ev.conn, Ev.id>>
                  has == k \in DOMAIN open
-                 q == IF has THEN open[k] ELSE [tok |-> "", short |-> FALSE, unstable |-> FALSE, closedSince |-> FALSE, cc |-> 0]
+                 q == IF has THEN open[k] ELSE [tok |-> "", short |-> FALSE, unstable |-> FALSE, closedSince |-> FALSE, cc |-> 0, gone |-> FALSE]
                  v == Verdict(has, k \in done, q, Ev.ok, Ev.htok, Ev.btok, Ev.htok \in produced)
              IN /\ \A kind \in Kinds : Expect(kind \notin v, kind)
                 /\ open' = IF has THEN [x \in DOMAIN open \ {k} |-> open[x]] ELSE open
@@ -58,11 +59,11 @@ TCrecv == /\ IsEvent("crecv")
           /\ UNCHANGED <<produced, closes>>
 
 TCclose == /\ IsEvent("cclose")
-           /\ open' = [x \in { k \in DOMAIN open : k[1] # Ev.conn } |-> open[x]]
+           /\ open' = [x \in DOMAIN open |-> IF x[1] = Ev.conn THEN [open[x] EXCEPT !.gone = TRUE] ELSE open[x]]
            /\ UNCHANGED <<done, produced, unstable, closes>>
 
 TQuiesce == /\ IsEvent("quiesce")
-            /\ Expect(DOMAIN open = {}, "request-without-reply")
+            /\ Expect(\A k \in DOMAIN open : open[k].gone, "request-without-reply")
             /\ UNCHANGED tv
 
 TraceNext == TRun \/ TCsend \/ TUrecv \/ TUsend \/ TUclose \/ TCrecv \/ TCclose \/ TQuiesce
